@@ -20,6 +20,7 @@ import (
 )
 
 type RigOpts struct {
+	ServerMaxReq  int64         // > 0: WithMaxRequestSize on the server
 	ServerPing    time.Duration // 0 = library default (5s)
 	ServerPingOff bool          // server sends no pings (and answers the client's pings with pongs)
 	ClientTimeout time.Duration // 0 = library default (30s)
@@ -183,6 +184,9 @@ func NewRig(o RigOpts) (*Rig, error) {
 	}
 	if o.WithErrors {
 		sopts = append(sopts, jsonrpc.WithServerErrors(jsonrpc.NewErrors()))
+	}
+	if o.ServerMaxReq > 0 {
+		sopts = append(sopts, jsonrpc.WithMaxRequestSize(o.ServerMaxReq))
 	}
 	r.RPC = jsonrpc.NewServer(sopts...)
 	r.RPC.Register("Tok", r.API)
